@@ -9,6 +9,10 @@ import Driver.Common
                 | F[l]<conv>=<16 hex>    a Float under the floating specification %[l]<conv>    (conv: f F e E g G)
                 | li=<dec> | ld=<dec> | lf=<16 hex>      short for Ili= Ild= Flf=
      K <S|F> <start> <s|i|f|ld|I<mod><conv>|F[l]<conv>> x=<hex>   read one value of that kind from the given text at <start>
+     L …  as K, plus `leaked=<bytes of fmt_buf the failed read leaves allocated>` (`scanLeak`);   T … as K (the harness oracle looks at the target)
+     W <S|F> <start> <0|1> <width> <mod><conv> <dec> [z=<hex>]      an Int under `%[0]<width><mod><conv>` (outside the property)
+   modes of R: show (one call per item), print (one print_to_with, one scan_from_with), split (one print_to_with per item, one
+   scan_from_with), join (one print_to_with, one scan_from_with per item)
 
    prints the observation line the C harness prints (`O …`) and, for `R`, a line `M rt=<0|1> contract=<0|1|2>`:
    did the model itself read back what it wrote, consuming exactly that, and is the op inside the property's quantifier
@@ -167,21 +171,22 @@ def itemEq : Item → Val → Bool
   | .fspec _ c a, .flt b => printFloatSpec c a == printFloatSpec c b
   | it, v => it.val? == some v
 
-def doR (k : Kind) (start : Nat) (pm : Bool) (its : List Item) (z : List Nat) : IO Unit := do
+def doR (k : Kind) (start : Nat) (mode : Nat) (its : List Item) (z : List Nat) : IO Unit := do
   let c := srcCfg
   let o : Sink := { kind := k, data := filler start }
   -- print mode: ONE print_to_with / scan_from_with on the format string (the model cuts it with the extracted conversion sets);
   -- show mode: one call per item
   let fmt := its.flatMap Item.fmt
+  -- split: one print_to_with per item = `printItems` (each item's own format is cut into that item); join: one per item on the read side
   let w : Option (Sink × Nat) :=
-    if pm then printFmt c o start fmt (its.filterMap Item.val?) else some (printItems c o start its)
+    if mode == 1 || mode == 3 then printFmt c o start fmt (its.filterMap Item.val?) else some (printItems c o start its)
   match w with
   | none => IO.println "O R w=unmodelled"
   | some (o', wpos) =>
     let text := o'.data.drop start
     let inp : Input := { kind := k, text := o'.data ++ z, cur := start }
     let rr : Option (List Val × Res (Input × Nat)) :=
-      if pm then scanFmt c inp start fmt (its.filterMap (fun it => sentinel it.shape))
+      if mode == 1 || mode == 2 then scanFmt c inp start fmt (its.filterMap (fun it => sentinel it.shape))
       else some (scanItems c inp start (its.map Item.shape))
     match rr with
     | none => IO.println s!"O R w={wpos} text={dump text} r=unmodelled"
@@ -197,11 +202,30 @@ def doR (k : Kind) (start : Nat) (pm : Bool) (its : List Item) (z : List Nat) : 
       let contract : Nat := if inProperty c k its z then 1 else if contractOK c k its z && onlyNarrow then 2 else 0
       IO.println s!"M rt={if rt then 1 else 0} contract={contract}"
 
-def doK (k : Kind) (start : Nat) (sh : Shape) (text : List Nat) : IO Unit := do
+def doK (probe : Nat) (k : Kind) (start : Nat) (sh : Shape) (text : List Nat) : IO Unit := do
   let inp : Input := { kind := k, text := text, cur := start }
   let (v, r) := scanItem srcCfg inp start sh
   let (rs, tell) := showRes k r
-  IO.println s!"O K r={rs} val={showVals v.toList} tell={tell}"
+  if probe == 1 then IO.println s!"O L r={rs} val={showVals v.toList} tell={tell} leaked={scanLeak srcCfg inp start sh}"
+  else if probe == 2 then IO.println s!"O T r={rs} val={showVals v.toList} tell={tell}"
+  else IO.println s!"O K r={rs} val={showVals v.toList} tell={tell}"
+
+/-- an Int under `%[0]<w><m><c>`: written at `start`, read back with the same specification -/
+def doW (k : Kind) (start : Nat) (zero : Bool) (w : Nat) (m : IMod) (cv : IConv) (n : Int) (z : List Nat) : IO Unit := do
+  let c := srcCfg
+  let text := printIntSpecW zero w m cv n
+  let o : Sink := ({ kind := k, data := filler start } : Sink).put start text
+  let wpos := start + text.length
+  let inp : Input := { kind := k, text := o.data ++ z, cur := start }
+  let (v, r) := inp.run start 77 (withN (scanIntSpecW c zero w m cv) 77)
+  let (rs, tell) := showRes k r
+  IO.println s!"O W w={wpos} text={dump text} r={rs} val={showVals [Val.int v]} tell={tell}"
+  -- `C15_width_safe_statement` evaluated on this op
+  let safe := widthSafe zero w m cv n && ispecSafe m cv n z
+  let rt : Bool := match r with
+    | .ok (i, p) => p == wpos && v == convInt m cv n && (k == .str || i.cur == wpos)
+    | _ => false
+  IO.println s!"M wsafe={if safe then 1 else 0} wrt={if rt then 1 else 0}"
 
 def main (args : List String) : IO Unit := do
   let lines ← Driver.inputLines args
@@ -209,14 +233,27 @@ def main (args : List String) : IO Unit := do
     if Driver.isSkippable l then continue
     match l.splitOn " " with
     | "R" :: src :: st :: mode :: toks =>
-      match parseKind src, parseNat st, (if mode = "show" then some false else if mode = "print" then some true else none) with
-      | some k, some start, some pm =>
+      match parseKind src, parseNat st, (if mode = "show" then some 0 else if mode = "print" then some 1 else if mode = "split" then some 2
+          else if mode = "join" then some 3 else none) with
+      | some k, some start, some md =>
         if start > 4096 || toks.length > 64 then IO.println "O bad-op" else
-        match parseItems pm toks with
-        | some (its, z) => doR k start pm its z
+        match parseItems (md != 0) toks with
+        | some (its, z) => doR k start md its z
         | none => IO.println "O bad-op"
       | _, _, _ => IO.println "O bad-op"
-    | ["K", src, st, kind, x] =>
+    | "W" :: src :: st :: zf :: ws :: spec :: ns :: ztok =>
+      let zopt : Option (List Nat) := match ztok with
+        | [] => some []
+        | [t] => let (zk, zv) := splitEq t
+                 if zk = "z" && t.contains '=' then (unhex zv.toList).bind fun bs => if bs.all (· != 0) && bs.length ≤ 200 then some bs else none else none
+        | _ => none
+      match parseKind src, parseNat st, (if zf = "0" then some false else if zf = "1" then some true else none), parseNat ws,
+            parseISpec ("I" ++ spec), parseInt64 ns, zopt with
+      | some k, some start, some zero, some w, some (m, cv), some n, some z =>
+        if start > 4096 || w < 1 || w > 40 then IO.println "O bad-op" else doW k start zero w m cv n z
+      | _, _, _, _, _, _, _ => IO.println "O bad-op"
+    | [kl, src, st, kind, x] =>
+      if kl != "K" && kl != "L" && kl != "T" then IO.println "O bad-op" else
       let sh : Option Shape := match kind with
         | "s" => some .str | "i" => some .int | "f" => some .flt | "ld" => some .ld
         | _ => match parseISpec kind, parseFSpec kind with
@@ -227,6 +264,6 @@ def main (args : List String) : IO Unit := do
       match parseKind src, parseNat st, sh, (if xk = "x" && x.contains '=' then unhex xv.toList else none) with
       | some k, some start, some sh, some text =>
         if start > text.length || (k == .str && text.any (· == 0)) then IO.println "O bad-op"
-        else doK k start sh text
+        else doK (if kl == "L" then 1 else if kl == "T" then 2 else 0) k start sh text
       | _, _, _, _ => IO.println "O bad-op"
     | _ => IO.println "O bad-op"
